@@ -220,7 +220,13 @@ def jump_tape(rep: Report, rng, n_cases: int, drv: Driver):
                 idx = captured["idx"] = rng.choice(good)
                 return [population[idx]]
 
-            with mock.patch("random.choices", fake_choices):
+            uniform_calls = []
+
+            def fake_uniform(a, b):
+                uniform_calls.append((a, b))
+                return 0.5 * (a + b)
+
+            with mock.patch("random.choices", fake_choices), mock.patch("random.uniform", fake_uniform):
                 impl.do_random_quantum_jump()
             after = mps_to_dense(impl.state)
         except _NoJumpPossible:
@@ -252,6 +258,15 @@ def jump_tape(rep: Report, rng, n_cases: int, drv: Driver):
         if not ok or worst > 1e-9 * max(1.0, nrm2):
             rep.fail(f"jump weights are not <psi|L^dag L|psi> in candidate order (worst abs error {worst:.3g})",
                      {"n": n, "dim": dim, "k": k, "seed": seed, "weights": w})
+        # after the jump the next threshold must be drawn from U(0, <psi|psi>) = U(0, 1) of the renormalised state
+        if not uniform_calls or abs(uniform_calls[-1][0]) > 0 or abs(uniform_calls[-1][1] - 1.0) > 1e-9:
+            rep.fail(f"after a jump the new threshold is drawn from U{uniform_calls[-1] if uniform_calls else '()'} instead of U(0, 1) "
+                     "(squared norm of the renormalised state)", {"n": n, "dim": dim, "k": k, "seed": seed})
+        gap = getattr(impl, "norm_gap_before_jump", None)
+        thr = getattr(impl, "jump_threshold", None)
+        if gap is not None and thr is not None and abs((gap + thr) - 1.0) > 1e-9:
+            rep.fail(f"after a jump norm_gap_before_jump + jump_threshold = {gap + thr!r}, expected the squared norm 1",
+                     {"n": n, "dim": dim, "k": k, "seed": seed})
         # post-jump state = normalised L_q psi
         q, kk = order[captured["idx"]]
         target = dense_site(ops[kk].numpy(), q, n, dim) @ psi
